@@ -38,7 +38,7 @@ class LodJoin(Harness):
     def __init__(self, kind, nkeys, na, nb, renamed=False):
         self.kind = kind; self.nkeys = nkeys; self.na = na; self.nb = nb; self.renamed = renamed
         self.name = f"C16.{kind}.k{nkeys}{'.renamed' if renamed else ''}.{na}x{nb}"
-        self.bounds = {"left items": f"0..{na}", "right items": f"0..{nb}", "key columns": nkeys, "renamed keys": renamed,
+        self.bounds = {"left items": f"0..{na}", "right items": f"0..{nb}", "key columns": nkeys, "renamed keys": (renamed and "pairs written as tuples and as lists"),
                        "values": "int64-range ints or None keys; a payload key 'p' present on both sides, 'pa'/'pb' on one"}
         self.symbolic = ["key and payload values"]; self.choice_dims = ["lengths", "None pattern of keys"]
         self.goals = [f"list_of_dicts.py:ListOfDicts.{kind}"]
@@ -49,7 +49,9 @@ class LodJoin(Harness):
         A = mk_side(ctx, na, "a", "ida", ka, ["pa", "p"])
         B = mk_side(ctx, nb, "b", "idb", kb, ["pb", "p"], bare=self.kind in ("left_join", "inner_join", "semi_join", "anti_join"))
         by = [[x, y] for x, y in zip(ka, kb)] if self.renamed else list(ka)
-        return {"a": LoD(A), "b": LoD(B), "kind": self.kind, "by": by}
+        inp = {"a": LoD(A), "b": LoD(B), "kind": self.kind, "by": by}
+        if self.renamed: inp["pair_form"] = choice("pair_form", ["tuple", "list"])   # both spellings of a key pair are accepted
+        return inp
     def spec(self, inp, out):
         if isinstance(out, Raised):
             return [(f"does not raise ({out.type}: {out.msg[:60]})", T(False))]
